@@ -92,6 +92,7 @@ func c16Unit(c *RunCtx, unit int) {
 			otps[ac.PID] = code
 		}
 	}
+	mailFault := ""
 	pair := func(kind, what string, build func(variant int) (world.Req, string)) {
 		base := w.SaveState()
 		jar := world.NewBrowser(90)
@@ -106,6 +107,9 @@ func c16Unit(c *RunCtx, unit int) {
 			w.LoadState(base)
 			b := jar.Clone()
 			rq, pid := build(v)
+			if mailFault != "" {
+				w.FaultOps = map[string]error{mailFault: errGeneric}
+			}
 			rec := w.Do(b, rq)
 			obs[v] = observable(w, b, rec, pid)
 			recs[v] = rec
@@ -193,8 +197,14 @@ func c16Unit(c *RunCtx, unit int) {
 				})
 			}
 		}
-		// (b) recovery start: existing vs similar non-existing account
-		pair("recover-existing-vs-unknown", state, func(v int) (world.Req, string) {
+		// (b) recovery start: existing vs similar non-existing account — also while the mail system is
+		// down (mail delivery is not client-observable; its failure must not be either)
+		mailFault = []string{"", "", "mail", "mailrender"}[r.Intn(4)]
+		if mailFault != "" {
+			c.Stats.Count("pairs:recover-with-mail-fault")
+		}
+		defer func() { mailFault = "" }()
+		pair("recover-existing-vs-unknown", state+"/mailfault="+mailFault, func(v int) (world.Req, string) {
 			pid := ac.PID
 			if v == 1 {
 				pid = "x" + ac.PID
